@@ -174,12 +174,12 @@ func checkQuestion(host string, x exch, suffix string, fresh bool) (class, desc 
 			}
 		}
 	}
-	low := strings.ToLower(x.Name)
-	if strings.Contains(low, host) && len(host) > 4 {
+	low := strings.ToLower(rest)
+	if len(host) > 4 && strings.Contains(low, host) {
 		return "name-leak", "question " + x.Name + " contains the queried name " + host
 	}
 	for _, l := range strings.Split(host, ".") {
-		if len(l) > 4 && strings.Contains(strings.TrimSuffix(low, suffix), l) {
+		if len(l) > 4 && strings.Contains(low, l) {
 			return "name-leak", "question " + x.Name + " contains the label " + l
 		}
 	}
